@@ -144,14 +144,32 @@ func genClaim(claim string) error {
 }
 
 func genParseBinaryOps(n *node, arg string) error {
+	// A pattern variable that was already bound must match the same expression
+	// again: bind the repeat to a fresh name and compare.
+	lDup, rDup := isVariable(n.lhs.op) && names[n.lhs.op], isVariable(n.rhs.op) && names[n.rhs.op]
 	l := genName(n.lhs)
 	r := genName(n.rhs)
 	key := keys[n.op]
 	if key == "" {
 		return fmt.Errorf("bad op %q", n.op)
 	}
-	fmt.Fprintf(&out, "op, %s, %s := parseBinaryOp(%s)\n", l, r, arg)
+	lBind, rBind := l, r
+	if lDup {
+		nextTmp++
+		lBind = fmt.Sprintf("y%d", nextTmp-1)
+	}
+	if rDup || (l == r && l[0] == 'x') {
+		nextTmp++
+		rBind = fmt.Sprintf("y%d", nextTmp-1)
+	}
+	fmt.Fprintf(&out, "op, %s, %s := parseBinaryOp(%s)\n", lBind, rBind, arg)
 	fmt.Fprintf(&out, "if op != t.ID%s { return errFailed }\n", key)
+	if lBind != l {
+		fmt.Fprintf(&out, "if !%s.Eq(%s) { return errFailed }\n", l, lBind)
+	}
+	if rBind != r {
+		fmt.Fprintf(&out, "if !%s.Eq(%s) { return errFailed }\n", r, rBind)
+	}
 	if l[0] == 't' {
 		if err := genParseBinaryOps(n.lhs, l); err != nil {
 			return err
